@@ -3,6 +3,7 @@
 mod c06;
 mod c14;
 mod c18;
+mod c19;
 mod plan;
 mod sql;
 mod util;
@@ -32,6 +33,7 @@ fn main() {
             "c06" => util::guard(|| c06::run(&v)),
             "c14" => util::guard(|| c14::run(&v)),
             "c18" => util::guard(|| c18::run(&v)),
+            "c19" => util::guard(|| c19::run(&v)),
             "crc" => util::guard(|| c18::crc(&v)),
             "sql" => util::guard(|| sql::run(&v)),
             _ => panic!("unknown command {cmd}"),
